@@ -63,6 +63,7 @@ type Profile struct {
 	CacheKind       string // external mode: noop | lru | lru-ttl | chaos
 	CacheSize       int
 	CacheTTL        time.Duration
+	Stall           string // a slow component: seam-name prefix whose answers the driver hands out reluctantly, so calls in flight pile up behind it
 }
 
 type replica struct {
@@ -175,6 +176,15 @@ func (w *World) Init(s *kernel.Sim) {
 
 	if w.mode.External {
 		w.drawExternal()
+	}
+	// slow-node fault: in a third of the runs one component answers reluctantly (its calls stay parked while the rest
+	// of the system moves on), so concurrent work piles up behind it - fan-outs fill their windows, requests queue
+	stall := []string{"be."}
+	if w.mode.External {
+		stall = []string{"be.", "store.Find", "store.Find", "store.", "cache."}
+	}
+	if t.Chance(1, 3) {
+		p.Stall = stall[t.Intn(len(stall))]
 	}
 	w.build()
 }
@@ -695,7 +705,14 @@ func (w *World) Options(s *kernel.Sim) []kernel.Option {
 	var opts []kernel.Option
 	parked := s.ParkedCalls()
 	for _, p := range parked {
-		opts = append(opts, s.ReleaseOpt(p, kernel.Decision{Kind: "ok"}, 10))
+		wt := 10
+		if w.prof.Stall != "" && s.FaultsOn() && strings.HasPrefix(p.Name, w.prof.Stall) && !(w.x != nil && w.x.pastDeadline[strings.TrimPrefix(p.Party, "cachefill:")]) {
+			wt = 1
+		}
+		opts = append(opts, s.ReleaseOpt(p, kernel.Decision{Kind: "ok"}, wt))
+	}
+	if n := w.stalled(parked); n > 0 {
+		s.Probe(fmt.Sprintf("stall.pileup=%d", min(n, 9)))
 	}
 	if w.x != nil {
 		opts = append(opts, w.x.options(parked)...)
@@ -780,6 +797,20 @@ func (w *World) AfterStep(s *kernel.Sim) {
 			w.mode.Oracle(w, op)
 		}
 	}
+}
+
+// stalled counts the calls parked at the run's slow component.
+func (w *World) stalled(parked []*kernel.Parked) int {
+	if w.prof.Stall == "" || !w.s.FaultsOn() {
+		return 0
+	}
+	n := 0
+	for _, p := range parked {
+		if strings.HasPrefix(p.Name, w.prof.Stall) {
+			n++
+		}
+	}
+	return n
 }
 
 func hasPrefix(s, p string) bool { return len(s) >= len(p) && s[:len(p)] == p }
